@@ -78,13 +78,13 @@ def _run(cond, raw, n, k, edges, st, fi, labels, order, word):
 def c06_to_regex(n: int, k: int, t: T12, m: int, starts: int, finals: int, perm: int,
                  w: Tuple[int, int], wlen: int) -> bool:
     """
+    pre: pinned(n=n, k=k, m=m, starts=starts, finals=finals, perm=perm, t0=t[0], t1=t[1], wlen=wlen)
     pre: 2 <= n <= 3 and 1 <= k <= 2 and 0 <= m <= 4 and 0 <= perm < 6 and 0 <= wlen <= 2
     pre: 0 <= starts < (4 if n == 2 else 8) and 0 <= finals < (4 if n == 2 else 8)
     pre: all(0 <= t[3 * i] < n and 0 <= t[3 * i + 1] <= k and 0 <= t[3 * i + 2] < n for i in range(4))
     pre: sparse_canonical(t, m)
     pre: n == 3 or perm == 0
     pre: all(0 <= w[i] < k and (i < wlen or w[i] == 0) for i in range(2))
-    pre: pinned(n=n, k=k, m=m, starts=starts, finals=finals, perm=perm, t0=t[0], t1=t[1], wlen=wlen)
     post: _
     """
     raw = (n, k, t, m, starts, finals, perm, w, wlen)
@@ -104,8 +104,8 @@ def c06_to_regex(n: int, k: int, t: T12, m: int, starts: int, finals: int, perm:
 
 def c06_two_state(ss: int, se: int, es: int, ee: int, same: int) -> bool:
     """
-    pre: 0 <= ss < 4 and 0 <= se < 4 and 0 <= es < 4 and 0 <= ee < 4 and 0 <= same < 2
     pre: pinned(ss=ss, se=se, same=same)
+    pre: 0 <= ss < 4 and 0 <= se < 4 and 0 <= es < 4 and 0 <= ee < 4 and 0 <= same < 2
     post: _
     """
     raw = (ss, se, es, ee, same)
